@@ -1432,3 +1432,23 @@ M("C05", "pair-crossed", WALK,
   "    new_block = LogicBlockHolder(start_operator, end_operator, logic_node)",
   "    new_block = LogicBlockHolder(end_operator, start_operator, logic_node)",
   "R5.9", "start and end operator nodes crossed")
+M("C07", "tuple-crossed", "loop_detection/calculate_loop_components.py",
+  "    return end_nodes, break_nodes, loop_edges\n",
+  "    return break_nodes, end_nodes, loop_edges\n", "R7.8",
+  "end and break nodes crossed in a returned tuple")
+M("C07", "loop-fields-crossed", "loop_detection/calculate_loop_components.py",
+  """        scc_events,
+        start_events,
+        end_events,
+        break_events,""",
+  """        scc_events,
+        end_events,
+        start_events,
+        break_events,""", "R7.8", "Loop(...) start/end fields crossed")
+M("C07", "handler-args-crossed", CUG,
+  """    update_graph_for_loop_start_events(
+        loop.start_events, loop.loop_events, loop_event, graph
+    )""",
+  """    update_graph_for_loop_start_events(
+        loop.end_events, loop.loop_events, loop_event, graph
+    )""", "R7.8", "start handler fed with the end events")
